@@ -155,7 +155,10 @@ class Parser:
             (_if, pytools.lex.RE(r"if\b")),
             (_else, pytools.lex.RE(r"else\b")),
 
-            (_imaginary, (_float, pytools.lex.RE("j"))),
+            # must come before _float, whose optional letter tag would
+            # otherwise swallow the "j"
+            (_imaginary, pytools.lex.RE(
+                r"([0-9]+\.?[0-9]*|\.[0-9]+)([eE][+-]?[0-9]+)?[jJ]\b")),
             (_float, ("|",
                 # has digits before the dot (after optional)
                 pytools.lex.RE(
